@@ -613,3 +613,43 @@ Proof.
     { intros i Hi. unfold bin_vertex. destruct Hh as [[Hr _] _]. specialize (Hr i Hi). rewrite bm_value_enc; lia. }
     split; [now apply (homogeneous_ext N E k true phi)|]. intros Hs. apply (increasing_ext k phi); auto.
 Qed.
+
+(* ---------- model counts: models <-> embeddings / ordered cliques ---------- *)
+Lemma embedding_ext N EG k EH ind phi psi : (forall i, 1 <= i <= k -> phi i = psi i) ->
+  embedding N EG k EH ind phi -> embedding N EG k EH ind psi.
+Proof.
+  intros Hx [[Hr Hinj] He]. split; [split|].
+  - intros i Hi. rewrite <- Hx by assumption. now apply Hr.
+  - intros i1 i2 H1 H2. rewrite <- !Hx by assumption. now apply Hinj.
+  - intros i1 i2 H1 H2 Hne. rewrite <- !Hx by assumption. now apply He.
+Qed.
+
+Theorem subgraph_bijection N EG k EH ind sb : 0 <= k ->
+  let P := fun phi => embedding N EG k EH ind phi /\ (sb = true -> increasing k phi) in
+  let F := subgraph_ir N EG k EH ind sb in
+  (forall a, irs_hold a F = true -> P (dec_map a 0 N)) /\
+  (forall phi, P phi -> irs_hold (enc_map 0 N phi) F = true) /\
+  (forall phi, P phi -> forall i, 1 <= i <= k -> dec_map (enc_map 0 N phi) 0 N i = phi i) /\
+  (forall a, irs_hold a F = true -> forall v, 0 < v <= 0 + k * N -> enc_map 0 N (dec_map a 0 N) v = a v).
+Proof.
+  intros Hk P F. apply (char_bijection (fun a => irs_hold a F = true) 0 k N P); try lia.
+  - intros phi psi Hx [He Hi]. split; [now apply (embedding_ext N EG k EH ind phi)|].
+    intros Hs. apply (increasing_ext k phi); auto.
+  - intros phi [[[Hr _] _] _]. exact Hr.
+  - intros a. unfold F. rewrite subgraph_char. unfold P. split; intros [phi H]; exists phi; tauto.
+Qed.
+
+Theorem kclique_bijection N E k sb l : kclique_ir N E k sb = Some l ->
+  let P := fun phi => homogeneous N E k true phi /\ (sb = true -> increasing k phi) in
+  (forall a, irs_hold a l = true -> P (dec_map a 0 N)) /\
+  (forall phi, P phi -> irs_hold (enc_map 0 N phi) l = true) /\
+  (forall phi, P phi -> forall i, 1 <= i <= k -> dec_map (enc_map 0 N phi) 0 N i = phi i) /\
+  (forall a, irs_hold a l = true -> forall v, 0 < v <= 0 + k * N -> enc_map 0 N (dec_map a 0 N) v = a v).
+Proof.
+  intros Hl P. assert (Hk : 0 <= k). { unfold kclique_ir in Hl. destruct (Z.ltb_spec k 0); [discriminate|assumption]. }
+  apply (char_bijection (fun a => irs_hold a l = true) 0 k N P); try lia.
+  - intros phi psi Hx [He Hi]. split; [now apply (homogeneous_ext N E k true phi)|].
+    intros Hs. apply (increasing_ext k phi); auto.
+  - intros phi [[[Hr _] _] _]. exact Hr.
+  - intros a. rewrite (kclique_char a N E k sb l Hl). unfold P. split; intros [phi H]; exists phi; tauto.
+Qed.
